@@ -339,6 +339,9 @@ impl TreeSys for Words {
     fn max_len(&self) -> usize {
         self.max_len
     }
+    fn name(&self) -> String {
+        ["half_life/words", "winsorize", "spearman"][self.kind as usize].to_string()
+    }
     fn visit(&self, w: &[u8], _p: Option<&()>, ctx: &mut Ctx) {
         match self.kind {
             0 => {
